@@ -31,6 +31,19 @@ Theorem C13_tree_bytes_tree : forall ts, ts <> [] -> canon_fields ts = true ->
   convert b = Ok ts.
 Proof. exact tree_bytes_tree. Qed.
 
+(* ARBITRARY bytes (C03 reuses this): ConvertUnknownFields never panics — no slice beyond the buffer, no
+   negative make — whatever the input; the model's recursion and loop budgets are never exhausted (so the
+   budget is not what produces an error: every nesting level consumes bytes); and a single value read
+   reports a consumed length between 1 and the length of the buffer it was given.  Allocation by declared
+   size (make([]UnknownField, size)) is modelled as total. *)
+Theorem C13_convert_total : forall b, safe (convert b).
+Proof. exact convert_total. Qed.
+Theorem C13_convert_fuel_suffices : forall b, convert b <> Err e_fuel.
+Proof. exact convert_fuel_suffices. Qed.
+Theorem C13_read_field_bounded : forall fuel f0 buf ty id f l,
+  (length buf < fuel)%nat -> read_field true fuel f0 buf ty id = Ok (f, l) -> 1 <= l <= len buf.
+Proof. exact read_field_bounded. Qed.
+
 (* the type codes the statements fix are the ones the Go source declares *)
 Theorem C13_consts :
   thrift_STOP = T_STOP /\ thrift_BOOL = T_BOOL /\ thrift_BYTE = T_BYTE /\ thrift_DOUBLE = T_DOUBLE /\
